@@ -1,6 +1,6 @@
 """C14 — uniform input validation; rejected inputs do no harm; containers don't matter.
 
-Two explorations over the real detectors (DESIGN §4 C14), both twin oracles:
+Explorations over the real detectors (DESIGN §4 C14), all twin / differential oracles:
 
 * ``inject-<Detector>`` — fault injection.  A valid base history (every
   sequence of length <= 3 over a 2-symbol menu, extended by a fixed tail that
@@ -18,6 +18,22 @@ Two explorations over the real detectors (DESIGN §4 C14), both twin oracles:
   applicable containers to the positions of a valid history must reproduce the
   observation trace of the all-2-D-ndarray run.
 
+* ``inject-SEns-*`` / ``inject-BEns-*`` (round 3b) -- the same fault injection for ensembles.  A
+  StreamingEnsemble / BatchEnsemble is a detector of the respective base class; a call that one of its members
+  refuses must leave no trace in the ensemble's verdict and counters, in any member, or (through the outputs of
+  later accepted calls) in the state of its election.  Families: one column per member through positional
+  selectors (SEns-cols, BEns-cols), all members on the same input without selectors (SEns-one, BEns-all: the width
+  and univariate rules apply), a member that reads X next to one that reads the labels in both orders (SEns-xy);
+  elections: ConfirmedElection with several (sensitivity, wait_time), simple majority, minimum and ordered
+  approval.  The histories make members alarm at different times so that the malformed call falls inside the
+  waiting periods of a ConfirmedElection.
+* ``reuse-<Detector>`` (round 3b) -- container equivalence for caller-owned containers that are REUSED: the caller
+  keeps one preallocated object per role and shape (2-D / 1-D ndarray, Series, DataFrame, flat / nested list; several
+  dtypes) and overwrites it in place before every call in which it is used.  Every assignment of {fresh 2-D
+  ndarray, the reused object} to the positions of a valid history must reproduce the trace of the all-fresh run
+  of the same dtype.  Each of the 2^L assignments is executed from scratch (``reuse_enum``): deep-copied snapshots
+  would cut the link between a detector and the caller's buffer that this family looks for.
+
 Tasks: one per detector x parameter set x base history x default container x
 chunk of injection positions (``cfg["pos"]``); the alphabet offers the malformed
 calls only at those positions, a non-default container only to the two
@@ -29,13 +45,21 @@ Events (JSON): ``["v", sym, container]`` valid call (``sym`` = menu symbol or
 """
 import itertools
 import math
+import time
+from collections import Counter
 
 import numpy as np
 import pandas as pd
 
 from mc import rng
-from mc.explorer import HarnessError, System, Violation, jsonable
+from mc.explorer import Ctx, HarnessError, System, Violation, artefact, jsonable, run_path
 from checks.drivers import BATCH_1D, BATCH_2D, DRIVERS, PCA_POINTS
+
+from menelaus.change_detection import ADWIN as _ADWIN, PageHinkley as _PH
+from menelaus.concept_drift import DDM as _DDM
+from menelaus.data_drift import CDBD as _CDBD, HDDDM as _HDDDM, NNDVI as _NNDVI
+from menelaus.ensemble import (BatchEnsemble, ConfirmedElection, MinimumApprovalElection, OrderedApprovalElection,
+                               SimpleMajorityElection, StreamingEnsemble)
 
 PROPERTY = "C14"
 
@@ -157,9 +181,34 @@ class Adapter:
         """documented refusals of VALID input that depend on the detector's state, not on the input's shape."""
         return self.name == "CUSUM" and isinstance(exc, ValueError) and "Standard deviation is 0" in str(exc)
 
+    def param_sets(self, tier):
+        return list(self.params) if tier == "thorough" else list(self.params[: self.quick_params])
+
+    quick_params = 1  # quick tier: how many of ``params`` are explored
+    is_ensemble = False
+    reuse_params = None  # extra parameter sets of the reuse-* family (both tiers)
+    reuse_kinds = ()  # caller-owned containers that can be overwritten in place and passed again
+    reuse_dtypes = ("f8", "f4", "i8")
+
     # -- observables -----------------------------------------------------------
     def public(self, det):
         return jsonable(self.d.obs(det))
+
+    def mask_pending(self, od, ot, pending):
+        """observables of the twin with the fields that may lag behind until its next accepted update (see
+        Inject._valid) replaced by the detector's"""
+        return dict(ot, state=od["state"], since=od["since"])
+
+    # -- reuse-* family: one caller-owned object per role and shape, overwritten in place before every call ----
+    def reuse_shapes(self, sym):
+        """{role: 2-D float array of the values this call carries}"""
+        return {"X": np.array(self.arr(sym), dtype=float)}
+
+    row = True  # 1-D containers hold the single row (streaming) / the single column (batch)
+    py = float  # python type of the numbers in list containers
+
+    def call_obj(self, det, sym, objs):
+        det.update(objs["X"])
 
     # -- faults ------------------------------------------------------------------
     def faults(self, est, det):
@@ -175,6 +224,7 @@ class UniStream(Adapter):
 
     width = 1
     univariate = True
+    reuse_kinds = ("nd2", "nd1", "Series", "DataFrame", "list1", "list2")
 
     def arr(self, sym):
         return [[float(sym)]]
@@ -215,10 +265,21 @@ class UniStream(Adapter):
 class YStream(Adapter):
     """DDM, EDDM, STEPD, ADWINAccuracy, LinearFourRates: update(y_true, y_pred)."""
 
+    reuse_kinds = ("nd1", "nd2", "Series", "DataFrame", "list1")
+    reuse_dtypes = ("i8", "i4", "u1")  # labels are integers (what other encodings do is C16's subject)
+    py = int
+
     def labels(self, sym):
         if self.name == "LinearFourRates":
             return divmod(sym, 2)
         return 1, (0 if sym else 1)
+
+    def reuse_shapes(self, sym):
+        yt, yp = self.labels(sym)
+        return {"yt": np.array([[float(yt)]]), "yp": np.array([[float(yp)]])}
+
+    def call_obj(self, det, sym, objs):
+        det.update(y_true=objs["yt"], y_pred=objs["yp"])
 
     def call(self, det, sym, cont, p):
         yt, yp = self.labels(sym)
@@ -240,6 +301,7 @@ class MvStream(Adapter):
     """KdqTreeStreaming, PCACD: update(X) with one row of two features."""
 
     width = 2
+    reuse_kinds = ("nd2", "nd1", "Series", "DataFrame", "list1", "list2")
 
     def arr(self, sym):
         if self.name == "PCACD":
@@ -299,12 +361,21 @@ class Batch(Adapter):
     base = "BatchDetector"
     kind = "batch"
     METHODS = ("update", "set_reference")
+    row = False
+    reuse_dtypes = ("f8", "f4")  # the batch menus hold halves and quarters: exact in float32, not integral
 
     def __init__(self, name):
         super().__init__(name)
         self.univariate = name == "CDBD"
         self.width = 1 if self.univariate else 2
         self.menu_data = BATCH_1D if self.univariate else BATCH_2D
+        self.reuse_kinds = ("nd2", "DataFrame", "list2") + (("nd1", "Series", "list1") if self.univariate else ())
+
+    def call_obj(self, det, sym, objs):
+        if self.is_ref(sym):
+            det.set_reference(objs["X"])
+        else:
+            det.update(objs["X"])
 
     def arr(self, sym):
         return self.menu_data[sym[1] if self.is_ref(sym) else sym]
@@ -426,8 +497,189 @@ class MD3Adapter(Adapter):
         return jsonable(o)
 
 
+# ----------------------------------------------------------------------------
+# ensembles: StreamingEnsemble / BatchEnsemble are detectors too (they inherit the base classes); a call that one of
+# their members refuses must leave no trace in the ensemble, its members or its election
+# ----------------------------------------------------------------------------
+_ADWIN_SMALL = {"delta": 1.0, "max_buckets": 2, "new_sample_thresh": 1, "window_size_thresh": 0, "subwindow_size_thresh": 1}
+_MEMBER = {
+    "ph": lambda: _PH(delta=0.0, threshold=0.5, burn_in=1),  # alarms on the sample of a jump
+    "ph_late": lambda: _PH(delta=0.0, threshold=1, burn_in=0),  # alarms one or two samples later
+    "adwin": lambda: _ADWIN(**_ADWIN_SMALL),
+    "ddm": lambda: _DDM(n_threshold=2, warning_scale=0.5, drift_scale=1.5),
+    "cdbd": lambda: _CDBD(detect_batch=1, statistic="stdev", significance=0.5, subsets=3),
+    "cdbd2": lambda: _CDBD(detect_batch=2, statistic="tstat", significance=0.5, subsets=3),
+    "hdddm": lambda: _HDDDM(detect_batch=1, statistic="stdev", significance=0.5, subsets=3),
+    "nndvi": lambda: _NNDVI(k_nn=2, sampling_times=8, alpha=0.3),
+}
+_Y_MEMBERS = ("ddm",)  # members that read y_true / y_pred and ignore X; all others read X and ignore y
+
+
+def _election(spec):
+    kind, args = spec[0], spec[1:]
+    return {"majority": SimpleMajorityElection, "minimum": MinimumApprovalElection,
+            "ordered": OrderedApprovalElection, "confirmed": ConfirmedElection}[kind](*args)
+
+
+def _column(i):
+    """column selector by position that understands every container the ensemble is fed with"""
+    def select(X):
+        if isinstance(X, pd.DataFrame):
+            return X.iloc[:, [i]]
+        a = np.asarray(X)
+        return a[:, [i]] if a.ndim == 2 else a.reshape(1, -1)[:, [i]]
+    return select
+
+
+class EnsMixin:
+    """params = {"members": [[key, member type, column or None], ...], "election": [kind, args...]}"""
+
+    is_ensemble = True
+    stochastic = False
+    quick_prefix = 2
+    thorough_prefix = 3
+
+    def _init(self, name, width, stochastic=False):
+        self.name = name
+        self.d = None
+        self.width = width
+        self.stochastic = stochastic
+
+    def make(self, p):
+        members = {k: _MEMBER[t]() for k, t, _ in p["members"]}
+        selectors = {k: _column(c) for k, _, c in p["members"] if c is not None}
+        ens = self.ens_cls(members, _election(p["election"]), selectors)
+        # harness note on the object (the ensemble's own column_selectors is a defaultdict that grows when it is read)
+        ens._c14_has_selectors = bool(selectors)
+        return ens
+
+    @staticmethod
+    def has(det, what):
+        ys = [isinstance(m, _DDM) for m in det.detectors.values()]
+        return any(ys) if what == "y" else not all(ys)
+
+    def selected(self, det):
+        return det._c14_has_selectors
+
+    @staticmethod
+    def waiting(det):
+        """a ConfirmedElection inside a waiting period (some member's alarm is being remembered)"""
+        return any(getattr(det.election, "wait_period_counters", None) or ())
+
+    def public(self, det):
+        tot, since = ("total_samples", "samples_since_reset") if self.kind == "stream" else ("total_batches", "batches_since_reset")
+        o = {"state": det.drift_state, "total": int(getattr(det, tot)), "since": int(getattr(det, since)),
+             "drift_states": dict(det.drift_states),
+             "recs": {k: (None if v is None else list(v)) for k, v in det.retraining_recs.items()},
+             "members": {k: {"state": m.drift_state, "total": int(getattr(m, tot)), "since": int(getattr(m, since))}
+                         for k, m in det.detectors.items()}}
+        return jsonable(o)
+
+    def mask_pending(self, od, ot, pending):
+        ot = dict(ot, members=dict(ot["members"]), drift_states=dict(ot["drift_states"]))
+        for k in pending:
+            ot["members"][k] = dict(ot["members"][k], state=od["members"][k]["state"], since=od["members"][k]["since"])
+            ot["drift_states"][k] = od["drift_states"][k]
+        return ot
+
+
+class EnsStream(EnsMixin, Adapter):
+    """StreamingEnsemble.  ``rows`` = menu of (feature row, error?) pairs; members read one column each through a
+    positional selector (width 3) or all read the single feature (width 1, no selectors); y is passed only when a
+    member reads it."""
+
+    base = "StreamingEnsemble"
+    kind = "stream"
+    ens_cls = StreamingEnsemble
+
+    def __init__(self, name, width=3, rows=()):
+        self._init(name, width)
+        self.rows = rows
+
+    def arr(self, sym):
+        return [list(map(float, self.rows[sym][0]))]
+
+    def _y(self, det, sym=None):
+        if not self.has(det, "y"):
+            return None, None
+        return 1, (0 if sym is not None and self.rows[sym][1] else 1)
+
+    def call(self, det, sym, cont, p):
+        yt, yp = self._y(det, sym)
+        det.update(pack(self.arr(sym), cont, row=True), yt, yp)
+
+    def faults(self, est, det):
+        out = []
+        if self.has(det, "X"):
+            for c in INJ:
+                out.append(("two_rows", c))
+                if not self.selected(det):
+                    # with selectors every member sees its own column whatever the width of X: not injected
+                    out.append(("two_rows_other_width", c))
+                    out.append(("multicol", c))
+            out.append(("two_rows_renamed", "DataFrame"))
+            if est["names"] is not None:
+                out.append(("renamed", "DataFrame"))
+        if self.has(det, "y"):
+            out += [(k, c) for k in ("y_true_multi", "y_pred_multi", "y_both_multi") for c in INJ]
+        return out
+
+    def fault(self, det, kind, cont, p):
+        w = self.width
+        one = np.arange(1.0, w + 1.0).reshape(1, w)
+        two = np.arange(1.0, 2 * w + 1.0).reshape(2, w)
+        yt, yp = self._y(det)
+        if kind == "two_rows":
+            X = pack(two, cont, row=True)
+        elif kind == "two_rows_other_width":
+            X = pack([[1.0, 2.0, 3.0], [4.0, 5.0, 6.0]], cont, row=True)
+        elif kind == "multicol":
+            X = pack([[1.0, 2.0, 3.0]], cont, row=True)
+        elif kind == "two_rows_renamed":
+            X = pack(two, cont, names=OTHER[:w], row=True)
+        elif kind == "renamed":
+            X = pack(one, cont, names=OTHER[:w], row=True)
+        elif kind in ("y_true_multi", "y_pred_multi", "y_both_multi"):
+            X = pack(self.arr(0), "ndarray", row=True)
+            yt = pack_y([1, 0] if kind in ("y_true_multi", "y_both_multi") else [1], cont)
+            yp = pack_y([0, 0] if kind in ("y_pred_multi", "y_both_multi") else [1], cont)
+        else:
+            raise HarnessError(kind)
+        det.update(X, yt, yp)
+
+
+class EnsBatch(EnsMixin, Batch):
+    """BatchEnsemble over two-feature batches (BATCH_2D): members read one column each (positional selectors) or all
+    read both features (no selectors)."""
+
+    base = "BatchDetector"  # the members' BatchDetector._validate_X is the call site of every refusal
+    ens_cls = BatchEnsemble
+    quick_prefix = 1
+    thorough_prefix = 2
+    reuse_kinds = ()
+
+    def __init__(self, name):
+        self._init(name, 2, stochastic=True)
+        self.univariate = False
+        self.menu_data = BATCH_2D
+
+    def faults(self, est, det):
+        out = []
+        for m in self.METHODS:
+            for c in INJ:
+                out.append(("one_row@" + m, c))
+                if not self.selected(det):
+                    out.append(("one_row_other_width@" + m, c))
+                    if est["width"] is not None:
+                        out.append(("wrong_width@" + m, c))
+            out.append(("one_row_renamed@" + m, "DataFrame"))
+            if est["names"] is not None:
+                out.append(("renamed@" + m, "DataFrame"))
+        return out
+
+
 def _mk(cls, name, **kw):
-    a = cls(name)
+    a = cls if name is None else cls(name)  # (ready-made adapter, None) or (class, detector name)
     for k, v in kw.items():
         setattr(a, k, v)
     return a
@@ -474,6 +726,50 @@ ADAPTERS = {
             menu=(0, 1), tail=[0, 1, ["ref", 1], 1, 0], eq_hist=[[["ref", 0], 0, 1, 1]]),
         _mk(MD3Adapter, "MD3", params=[{"sensitivity": 0.5, "k": 2, "oracle_data_length_required": 2}],
             menu=(0, 1), tail=[0, 1, 1, 1, 0, 1, 1], eq_hist=[]),
+    )
+}
+
+# -- ensembles (inject-* only).  The histories make the members alarm at different times, so that a ConfirmedElection
+# is inside a waiting period (its per-member counters are the only election state) at most injection positions.
+_COLS3 = [["a", "ph", 0], ["b", "ph", 1], ["c", "adwin", 2]]
+_ONE3 = [["p", "ph", None], ["q", "ph_late", None], ["r", "adwin", None]]
+ENSEMBLES = {
+    a.name: a
+    for a in (
+        # one column per member; rows: calm / feature a jumps / features b and c jump
+        _mk(EnsStream("SEns-cols", 3, rows=[([1, 1, 1], 0), ([4, 1, 1], 0), ([1, 4, 4], 0)]),
+            None, quick_params=3, menu=(0, 1, 2), tail=[0, 0, 1, 0, 2, 0, 0],
+            params=[{"members": _COLS3, "election": ["confirmed", 2, 2]},
+                    {"members": [["a", "ph", 0], ["b", "ph_late", 1], ["c", "ph", 2]], "election": ["confirmed", 1, 1]},
+                    {"members": _COLS3, "election": ["majority"]},
+                    {"members": _COLS3, "election": ["confirmed", 2, 3]},
+                    {"members": _COLS3, "election": ["confirmed", 3, 3]},
+                    {"members": _COLS3, "election": ["confirmed", 2, 0]},
+                    {"members": _COLS3, "election": ["minimum", 2]},
+                    {"members": _COLS3, "election": ["ordered", 1, 1]}]),
+        # every member reads the single feature (no selectors): the width / univariate rules apply to the ensemble's X
+        _mk(EnsStream("SEns-one", 1, rows=[([1], 0), ([4], 0)]),
+            None, quick_params=2, quick_prefix=3, menu=(0, 1), tail=[0, 0, 1, 0, 1, 1, 0],
+            params=[{"members": _ONE3, "election": ["confirmed", 2, 2]},
+                    {"members": _ONE3, "election": ["confirmed", 1, 2]},
+                    {"members": _ONE3, "election": ["majority"]},
+                    {"members": _ONE3, "election": ["minimum", 1]},
+                    {"members": _ONE3, "election": ["ordered", 1, 1]}]),
+        # a member that reads X next to a member that reads the labels, in both orders; rows: (x, error?)
+        _mk(EnsStream("SEns-xy", 1, rows=[([1], 0), ([4], 0), ([1], 1), ([4], 1)]),
+            None, quick_params=2, menu=(0, 1, 2, 3), tail=[0, 2, 1, 0, 3, 2, 0],
+            params=[{"members": [["x", "ph", None], ["y", "ddm", None]], "election": ["confirmed", 2, 2]},
+                    {"members": [["y", "ddm", None], ["x", "ph", None]], "election": ["minimum", 1]},
+                    {"members": [["x", "adwin", None], ["y", "ddm", None], ["z", "ph_late", None]], "election": ["majority"]}]),
+        _mk(EnsBatch("BEns-cols"),
+            None, quick_params=1, quick_prefix=0, thorough_prefix=1, menu=(0, 1, 2), tail=[0, 1, ["ref", 1], 2, 0],
+            params=[{"members": [["a", "cdbd", 0], ["b", "cdbd", 1]], "election": ["confirmed", 2, 1]},
+                    {"members": [["a", "cdbd", 0], ["b", "cdbd2", 1]], "election": ["majority"]},
+                    {"members": [["a", "cdbd", 0], ["b", "cdbd", 1]], "election": ["confirmed", 1, 2]}]),
+        _mk(EnsBatch("BEns-all"),
+            None, quick_params=1, quick_prefix=0, thorough_prefix=1, menu=(0, 1), tail=[0, 1, ["ref", 1], 1, 0],
+            params=[{"members": [["h", "hdddm", None], ["n", "nndvi", None]], "election": ["confirmed", 1, 1]},
+                    {"members": [["h", "hdddm", None], ["n", "nndvi", None]], "election": ["majority"]}]),
     )
 }
 
@@ -601,7 +897,7 @@ class Inject(System):
         if state.get("pending"):
             # the rejected call performed the pending post-drift re-initialisation early and no update has been
             # accepted since: the twin still shows the old drift flag / since-reset counter until its next update
-            ot = dict(ot, state=od["state"], since=od["since"])
+            ot = ad.mask_pending(od, ot, state["pending"])
             ctx.count("set_reference_compared_while_reset_pending")
         if not _same(od, ot):
             bad = sorted(k for k in set(od) | set(ot) if not _same(od.get(k), ot.get(k)))
@@ -624,6 +920,8 @@ class Inject(System):
             state["after"] += 1
             ctx.count("later_accepted_calls_compared")
             ctx.count("later_compared:" + ad.name)
+            if ad.is_ensemble and ad.waiting(T):
+                ctx.count("later_compared_while_election_waiting")
             if state["after"] == 1:
                 ctx.count("next_container:" + cont)
         elif cont != cfg["c0"]:
@@ -633,6 +931,42 @@ class Inject(System):
         if od["state"] == "drift":
             ctx.count("drift_in_valid_history")
         return od
+
+    def _judge_ensemble_rejection(self, state, before, after, ctxt, site, moved, ctx):
+        """(ii) for ensembles: the ensemble's own counters and verdict stay; a member may only have performed its own
+        pending post-drift re-initialisation (it was in drift, it is not counted)."""
+        if after.get("total") != before["total"]:
+            raise Violation("rejected-call-counted", "%s raised ValueError but was counted: %s" % (ctxt, moved),
+                            expected=before, observed=after, sig=self._sig("rejected-call-counted", site))
+        top = sorted(x for x in ("state", "since") if not _same(before.get(x), after.get(x)))
+        if top:
+            raise Violation(
+                "rejected-call-changed-state",
+                "%s raised ValueError but changed the ensemble's %s" % (ctxt, top),
+                expected={x: before.get(x) for x in top}, observed={x: after.get(x) for x in top},
+                sig=self._sig("rejected-call-changed-state", site))
+        pend = []
+        bm, am = before["members"], after.get("members") or {}
+        for k in bm:
+            if _same(bm[k], am.get(k)):
+                continue
+            if bm[k]["state"] == "drift" and am.get(k, {}).get("total") == bm[k]["total"]:
+                pend.append(k)
+                continue
+            raise Violation(
+                "ensemble-member-updated-by-rejected-call",
+                "%s raised ValueError after member %r had already processed the call: member %s -> %s (the members "
+                "are updated one after the other; the ones in front of the refusing member keep the sample)"
+                % (ctxt, k, bm[k], am.get(k)),
+                expected={k: bm[k]}, observed={k: am.get(k)},
+                sig="ensemble-member-updated-by-rejected-call:" + self.ad.ens_cls.__name__ + (
+                    # the only refusal an ensemble cannot foresee from its own input: the first call ever carries several
+                    # columns and a univariate member (no selector) refuses it
+                    ":univariate-guard-at-first-call" if site.startswith("multicol/") and "/first:" in site else ""))
+        if pend:
+            ctx.count("rejections_that_performed_pending_reset")
+            ctx.count("ensemble_member_pending_resets")
+            state["pending"] = pend
 
     def _fault(self, cfg, state, ev, ctx):
         ad, p = self.ad, cfg["params"]
@@ -672,13 +1006,15 @@ class Inject(System):
                 sig=self._sig("malformed-raised-%s" % type(exc).__name__, site),
             )
         pending = before["state"] == "drift"
-        if after.get("total") != before["total"] and not pending:
+        if ad.is_ensemble:
+            self._judge_ensemble_rejection(state, before, after, ctxt, site, moved, ctx)
+        elif after.get("total") != before["total"] and not pending:
             raise Violation(
                 "rejected-call-counted",
                 "%s raised ValueError but was counted: %s" % (ctxt, moved),
                 expected=before, observed=after, sig=self._sig("rejected-call-counted", site),
             )
-        if not _same(after, before):
+        elif not _same(after, before):
             if pending:
                 # the detector performed its pending post-drift re-initialisation before validating;
                 # what that means for later calls is judged by (iii)
@@ -708,6 +1044,8 @@ class Inject(System):
             ctx.count("method:" + kind.split("@")[1])
         ctx.count("container:" + cont)
         ctx.count("rejections:" + ad.name)
+        if ad.is_ensemble and ad.waiting(D):
+            ctx.count("rejected_while_election_waiting:" + ad.name)
         if est["width"] is not None and kind.split("@")[0] in ("wrong_width", "multicol"):
             ctx.count("width_rule:%s_after_%s" % (cont, "DataFrame" if est["names"] is not None else "array"))
         if kind.split("@")[0] in ("renamed", "reordered", "duplicated"):
@@ -787,50 +1125,352 @@ class Equiv(System):
         return od
 
 
+# ----------------------------------------------------------------------------
+# container equivalence, caller-owned containers that are reused
+# ----------------------------------------------------------------------------
+_NP = {"f8": np.float64, "f4": np.float32, "i8": np.int64, "i4": np.int32, "u1": np.uint8}
+
+
+def np_dtype(dtype, py=float):
+    """numpy dtype of a container variant; "py" (python numbers in lists) = what numpy makes of them"""
+    return _NP[dtype] if dtype in _NP else (np.float64 if py is float else np.int64)
+
+
+def buf_new(kind, dtype, shape, row, py=float):
+    """a caller-owned container of the given kind for values of the given 2-D shape, holding zeros"""
+    z = np.zeros(shape, dtype=np_dtype(dtype, py))
+    flat = z[0] if row else z[:, 0]
+    if kind == "nd2":
+        return z
+    if kind == "nd1":
+        return flat.copy()
+    if kind == "Series":
+        return pd.Series(flat.copy())
+    if kind == "DataFrame":
+        return pd.DataFrame(z, columns=NAMES[: shape[1]])
+    if kind == "list2":
+        return z.tolist()
+    if kind == "list1":
+        return flat.tolist()
+    raise HarnessError("unknown reusable container %r" % (kind,))
+
+
+def buf_write(obj, kind, arr, row, py=float):
+    """overwrite the caller-owned container IN PLACE with the values of ``arr`` (the object stays the same)"""
+    arr = np.asarray(arr, dtype=float)
+    if py is not float:
+        arr = arr.astype(np.int64)
+    flat = arr[0] if row else arr[:, 0]
+    if kind == "nd2":
+        obj[...] = arr
+    elif kind == "nd1":
+        obj[...] = flat
+    elif kind == "Series":
+        obj.iloc[:] = flat.astype(obj.dtype)
+    elif kind == "DataFrame":
+        obj.iloc[:, :] = arr.astype(obj.dtypes.iloc[0])
+    elif kind == "list2":
+        for i, r in enumerate(arr.tolist()):
+            obj[i][:] = r
+    elif kind == "list1":
+        obj[:] = flat.tolist()
+    else:
+        raise HarnessError("unknown reusable container %r" % (kind,))
+
+
+def buf_read(obj, kind, row):
+    """the values the caller-owned container currently holds, as a 2-D float array"""
+    if kind in ("Series", "DataFrame"):
+        a = obj.to_numpy(dtype=float)
+    else:
+        a = np.array(obj, dtype=float)
+    if a.ndim == 1:
+        a = a.reshape(1, -1) if row else a.reshape(-1, 1)
+    return a
+
+
+class Reuse(System):
+    """``reuse-<Detector>``: the values of a valid history reach the detector either in a fresh 2-D ndarray or in ONE
+    caller-owned container per role and shape that the caller overwrites in place before every call in which it is
+    used (the preallocated buffer / the one-cell Series of a streaming loop).  Every assignment of {fresh, reused}
+    to the positions of the history must reproduce the observation trace of the all-fresh run: the detector may keep
+    the values it was given, not the caller's object."""
+
+    def __init__(self, ad):
+        self.ad = ad
+        self.name = "reuse-" + ad.name
+
+    def init(self, cfg):
+        rng.seed_step(0, self.name, cfg["id"], "init")
+        return {"D": self.ad.make(cfg["params"]), "ref": None, "bufs": {}, "passed": {}}
+
+    def alphabet(self, cfg, state, pos):
+        h = cfg["hist"]
+        if pos >= len(h):
+            return []
+        return [["v", h[pos], "fresh"], ["v", h[pos], cfg["kind"]]]
+
+    def _reference(self, cfg, seed):
+        ad, p = self.ad, cfg["params"]
+        rng.seed_step(0, self.name, cfg["id"], "init")
+        R = ad.make(p)
+        out = []
+        for i, sym in enumerate(cfg["hist"]):
+            if ad.stochastic:
+                rng.seed_step(seed, ad.name, cfg["id"], i)
+            try:
+                ad.call_obj(R, sym, self._fresh(sym, cfg["dtype"]))
+            except Exception as e:  # noqa: BLE001
+                if ad.domain_error(e):
+                    out.append({"domain_error": True})
+                    break
+                raise Violation(
+                    "valid-call-rejected",
+                    "%s: valid call #%d of %r passed as fresh 2-D ndarray (%s) raised %r" % (ad.name, i, cfg["hist"], cfg["dtype"], e),
+                    expected="accepted", observed=repr(e),
+                    sig="valid-call-rejected:%s:%s:%s:%s" % (ad.name, ad.canonical, cfg["dtype"], type(e).__name__))
+            out.append(ad.public(R))
+        return out
+
+    def _fresh(self, sym, dtype):
+        """the values of the call in fresh 2-D ndarrays of the variant's dtype (the menus are exact in every dtype used)"""
+        dt = np_dtype(dtype, self.ad.py)
+        return {role: arr.astype(dt) for role, arr in self.ad.reuse_shapes(sym).items()}
+
+    def step(self, cfg, state, ev, pos, ctx):
+        ad, p = self.ad, cfg["params"]
+        kind, dtype = cfg["kind"], cfg["dtype"]
+        if state["ref"] is None:
+            state["ref"] = self._reference(cfg, ctx.seed)
+        _, sym, how = ev
+        D = state["D"]
+        exp = state["ref"][pos]
+        objs = None
+        if how != "fresh":
+            objs = {}
+            for role, arr in ad.reuse_shapes(sym).items():
+                key = "%s:%dx%d" % (role, arr.shape[0], arr.shape[1])
+                if key not in state["bufs"]:
+                    state["bufs"][key] = buf_new(kind, dtype, arr.shape, ad.row, ad.py)
+                obj = state["bufs"][key]
+                old = state["passed"].get(key)
+                buf_write(obj, kind, arr, ad.row, ad.py)
+                if not np.array_equal(buf_read(obj, kind, ad.row), arr):
+                    raise HarnessError("the reused %s (%s) does not hold the values written to it" % (kind, dtype))
+                if old is not None:
+                    ctx.count("reuse_objects_passed_again")
+                    if not np.array_equal(old, arr):
+                        ctx.mark("reuse_overwritten_with_other_values")
+                state["passed"][key] = arr.copy()
+                objs[role] = obj
+        if ad.stochastic:
+            rng.seed_step(ctx.seed, ad.name, cfg["id"], pos)
+        what = "%s: valid call #%d (%s), values in %s" % (
+            ad.name, pos, "set_reference" if ad.is_ref(sym) else "update",
+"a fresh 2-D ndarray (%s)" % dtype if objs is None else "the caller's reused %s (%s), overwritten in place before the call" % (kind, dtype))
+        try:
+            ad.call_obj(D, sym, self._fresh(sym, dtype) if objs is None else objs)
+        except Exception as e:  # noqa: BLE001
+            if exp.get("domain_error") and ad.domain_error(e):
+                ctx.terminal = True
+                ctx.count("agreed_domain_error:" + ad.name)
+                return {"domain_error": True}
+            raise Violation(
+                "reused-container-rejected",
+                "%s raised %r; the same values in fresh 2-D ndarrays of the same dtype are accepted" % (what, e),
+                expected="accepted", observed=repr(e),
+                sig="reused-container-rejected:%s:%s:%s:%s" % (ad.name, kind, dtype, type(e).__name__))
+        od = ad.public(D)
+        if objs is not None:
+            for role, arr in ad.reuse_shapes(sym).items():
+                obj = state["bufs"]["%s:%dx%d" % (role, arr.shape[0], arr.shape[1])]
+                if not np.array_equal(buf_read(obj, kind, ad.row), arr):
+                    ctx.count("reuse_caller_object_changed_by_call")  # C15's subject; reported, not judged here
+        if exp.get("domain_error") or not _same(od, exp):
+            bad = sorted(k for k in set(od) | set(exp) if not _same(od.get(k), exp.get(k)))
+            raise Violation(
+                "reused-container-differs",
+                "%s: observables %s differ from the run that passes the same values in fresh 2-D ndarrays of the same dtype" % (what, bad),
+                expected={k: exp.get(k) for k in bad}, observed={k: od.get(k) for k in bad},
+                sig="reused-container-differs:%s:%s:%s" % (ad.name, kind, dtype))
+        ctx.count("reuse_compared_steps")
+        ctx.count("reuse_steps:" + ad.name)
+        if objs is not None:
+            ctx.count("reuse_kind:" + kind)
+            ctx.count("reuse_dtype:" + dtype)
+        if od["state"] == "drift":
+            ctx.count("reuse_drift_steps")
+            ctx.count("reuse_drift_steps:" + ad.name)
+        return od
+
+
+def reuse_enum(task, seed):
+    """All 2^L assignments of {fresh, reused} to the positions of the history, EACH executed on a freshly constructed
+    detector and fresh caller objects.
+
+    The generic explorer shares prefixes through ``copy.deepcopy`` snapshots; a deep copy of a numpy view is an
+    independent array, so a snapshot would silently cut exactly the link this family is about (an object inside the
+    detector that is a view of the caller's buffer).  Nothing is shared between paths here except the reference
+    trace of the all-fresh run."""
+    system = SYSTEMS[task["system"]]
+    cfg = task["cfg"]
+    hist, kind = cfg["hist"], cfg["kind"]
+    L = len(hist)
+    ctx = Ctx(seed)
+    st = ctx.stats
+    violations, samples, per_sig = [], [], Counter()
+    t0 = time.time()
+
+    def record(v, events):
+        st["violations_raw"] += 1
+        st["sig:" + str(v.sig)] += 1
+        per_sig[v.sig] += 1
+        if per_sig[v.sig] > 3:
+            return
+        for _ in range(2):  # a verdict must reproduce from scratch, twice
+            _, v2 = run_path(system, cfg, events, seed)
+            if v2 is None or (v2.sub, v2.msg) != (v.sub, v.msg):
+                raise HarnessError("HARNESS-NONDET: violation %r on %s cfg=%r events=%r did not reproduce from scratch: %r"
+                                   % ((v.sub, v.msg), system.name, cfg, events, None if v2 is None else (v2.sub, v2.msg)))
+        violations.append(artefact(PROPERTY, system, cfg, seed, events, v))
+
+    try:
+        ref = system._reference(cfg, seed)
+    except Violation as v:
+        record(v, [["v", hist[0], "fresh"]])
+        ref = None
+    for mask in range(2 ** L if ref is not None else 0):
+        state = system.init(cfg)
+        state["ref"] = ref
+        events, obs, marks = [], None, 0
+        for pos in range(L):
+            ev = ["v", hist[pos], kind if (mask >> pos) & 1 else "fresh"]
+            events.append(ev)
+            ctx.terminal = False
+            ctx.marks = 0
+            try:
+                obs = system.step(cfg, state, ev, pos, ctx)
+            except Violation as v:
+                record(v, events)
+                break
+            st["transitions"] += 1
+            st["states"] += 1
+            marks += 1 if ctx.marks else 0
+            if ctx.terminal:
+                st["terminal_states"] += 1
+                break
+        st["executions"] += 1
+        if marks:
+            st["nontrivial_executions"] += 1
+        if len(samples) < 1 or (marks and len(samples) < 2):
+            samples.append({"system": system.name, "cfg": jsonable(cfg), "events": jsonable(events),
+                            "last_obs": jsonable(obs), "nontrivial_events": marks})
+    return {"stats": dict(st), "violations": violations, "samples": samples, "wall": time.time() - t0}
+
+
 SYSTEMS = {}
 for _a in ADAPTERS.values():
     SYSTEMS["inject-" + _a.name] = Inject(_a)
     if _a.eq_hist:
         SYSTEMS["equiv-" + _a.name] = Equiv(_a)
+    if _a.reuse_kinds:
+        SYSTEMS["reuse-" + _a.name] = Reuse(_a)
+for _a in ENSEMBLES.values():
+    SYSTEMS["inject-" + _a.name] = Inject(_a)
 
 for _n in ("KdqTreeStreaming", "KdqTreeBatch", "HDDDM", "CDBD", "NNDVI", "PCACD"):
     ADAPTERS[_n].quick_prefix = 1
     ADAPTERS[_n].thorough_prefix = 2
 
-SLOW = {"KdqTreeStreaming": 30, "KdqTreeBatch": 60, "HDDDM": 30, "CDBD": 20, "NNDVI": 10, "PCACD": 20, "LinearFourRates": 8, "MD3": 10}
+SLOW = {"KdqTreeStreaming": 30, "KdqTreeBatch": 60, "HDDDM": 30, "CDBD": 20, "NNDVI": 10, "PCACD": 20, "LinearFourRates": 8, "MD3": 10,
+        "BEns-cols": 40, "BEns-all": 40, "SEns-cols": 3, "SEns-one": 3, "SEns-xy": 2}
+
+# reuse-*: CUSUM is the detector whose decisions depend on a kept history of raw observations (estimation of target
+# and sd_hat at the end of the burn-in and after every alarm): both estimated and given statistics, in both tiers
+ADAPTERS["CUSUM"].reuse_params = [
+    {"target": None, "sd_hat": None, "burn_in": 2, "delta": 0.5, "threshold": 1},
+    {"target": None, "sd_hat": None, "burn_in": 3, "delta": 0, "threshold": 2, "direction": "positive"},
+]
+ADAPTERS["PageHinkley"].reuse_params = [{"delta": 0.5, "threshold": 2, "burn_in": 1}]
 
 
 def _params(ad, tier):
-    return ad.params if tier == "thorough" else ad.params[:1]
+    return ad.param_sets(tier)
+
+
+def reuse_hists(ad, tier):
+    """the first base history (empty prefix + tail, the tail repeated if short) cut to a length whose 2^L assignments
+    are affordable, and the equivalence histories"""
+    if ad.name in SLOW:
+        n = 5 if tier == "quick" else 7
+    else:
+        n = 7 if tier == "quick" else 10
+    out = []
+    first = list(ad.bases(tier)[0])
+    while len(first) < n:
+        first += list(ad.tail)
+    for h in [first[:n]] + [list(h) for h in ad.eq_hist]:
+        if h not in out:
+            out.append(h)
+    return out
+
+
+def reuse_configs(ad, tier):
+    """[(id, params)]: the inject/equiv parameter sets of the tier, then the reuse-only ones"""
+    ps = list(_params(ad, tier))
+    out = [(i, p) for i, p in enumerate(ps)]
+    for j, p in enumerate(ad.reuse_params or ()):
+        if p not in ps:
+            out.append((100 + j, p))
+    return out
+
+
+def reuse_variants(ad, tier):
+    """[(container kind, dtype)]: lists hold python floats; array-likes in every dtype of the adapter (quick: the
+    second and third dtype only for the 2-D ndarray and the Series)"""
+    out = []
+    for k in ad.reuse_kinds:
+        if k.startswith("list"):
+            out.append((k, "py"))
+            continue
+        for i, dt in enumerate(ad.reuse_dtypes):
+            if i == 0 or tier == "thorough" or k in ("nd2", "Series"):
+                out.append((k, dt))
+    return out
+
+
+def _inject_tasks(name, ad, tier, out):
+    if name == "MD3":
+        defaults = ("DataFrame",)
+    elif tier != "thorough":
+        defaults = ("ndarray",)
+    elif ad.quick_prefix < 3 or ad.is_ensemble:  # slow detectors
+        defaults = ("ndarray", "DataFrame")
+    else:
+        defaults = ("ndarray", "DataFrame", "list")
+    for pi, p in enumerate(_params(ad, tier)):
+        for bi, base in enumerate(ad.bases(tier)):
+            L = len(base)
+            n = 1 if name.startswith(("Kdq", "BEns")) else 2 if name in SLOW and not name.startswith("SEns") else 3 if L > 6 else L + 1
+            chunks = [(i, min(i + n - 1, L)) for i in range(0, L + 1, n)]
+            for c0 in defaults:
+                for lo, hi in chunks:
+                    out.append({
+                        "system": "inject-" + name,
+                        "cfg": {"id": pi, "params": p, "base": base, "c0": c0, "pos": [lo, hi]},
+                        "prefix": [],
+                        "depth": L + 1,
+                        "label": "inject-%s|%d|base%d|%s|pos%d-%d" % (name, pi, bi, c0, lo, hi),
+                        "cost": SLOW.get(name, 1) * L,
+                        "validate_every": 97,
+                    })
 
 
 def tasks(tier, seed):
     out = []
     for name, ad in ADAPTERS.items():
-        if name == "MD3":
-            defaults = ("DataFrame",)
-        elif tier != "thorough":
-            defaults = ("ndarray",)
-        elif ad.quick_prefix < 3:  # slow detectors
-            defaults = ("ndarray", "DataFrame")
-        else:
-            defaults = ("ndarray", "DataFrame", "list")
+        _inject_tasks(name, ad, tier, out)
         for pi, p in enumerate(_params(ad, tier)):
-            for bi, base in enumerate(ad.bases(tier)):
-                L = len(base)
-                n = 1 if name.startswith("Kdq") else 2 if name in SLOW else 3 if L > 6 else L + 1
-                chunks = [(i, min(i + n - 1, L)) for i in range(0, L + 1, n)]
-                for c0 in defaults:
-                    for lo, hi in chunks:
-                        out.append({
-                            "system": "inject-" + name,
-                            "cfg": {"id": pi, "params": p, "base": base, "c0": c0, "pos": [lo, hi]},
-                            "prefix": [],
-                            "depth": L + 1,
-                            "label": "inject-%s|%d|base%d|%s|pos%d-%d" % (name, pi, bi, c0, lo, hi),
-                            "cost": SLOW.get(name, 1) * L,
-                            "validate_every": 97,
-                        })
             for hi, h in enumerate(ad.eq_hist):
                 cs = ad.eq_containers(h[0])
                 for c in cs:
@@ -843,6 +1483,19 @@ def tasks(tier, seed):
                         "cost": SLOW.get(name, 1),
                         "validate_every": 97,
                     })
+        if ad.reuse_kinds:
+            for pid, p in reuse_configs(ad, tier):
+                for hi, h in enumerate(reuse_hists(ad, tier)):
+                    for kind, dt in reuse_variants(ad, tier):
+                        out.append({
+                            "system": "reuse-" + name,
+                            "cfg": {"id": pid, "params": p, "hist": h, "kind": kind, "dtype": dt},
+                            "fn": "reuse_enum",
+                            "label": "reuse-%s|%d|hist%d|%s|%s" % (name, pid, hi, kind, dt),
+                            "cost": SLOW.get(name, 1) * len(h) * 2 ** len(h) / 64.0,
+                        })
+    for name, ad in ENSEMBLES.items():
+        _inject_tasks(name, ad, tier, out)
     return out
 
 
@@ -867,6 +1520,20 @@ REQUIRED = (
     + ["later_compared:" + n for n in ADAPTERS]
     + ["rejected_right_after_drift:" + n for n in _DRIFTERS]
     + ["rejected_right_after_set_reference:" + n for n, a in ADAPTERS.items() if a.kind == "batch"]
+    # round 3b.  reuse-*: whether a step is compared does not depend on random draws (a stochastic detector's drifts do:
+    # reuse_drift_steps:<name> is reported, the total is carried by the deterministic detectors)
+    + ["reuse_compared_steps", "reuse_objects_passed_again", "reuse_overwritten_with_other_values", "reuse_drift_steps"]
+    + ["reuse_kind:" + k for k in ("nd2", "nd1", "Series", "DataFrame", "list1", "list2")]
+    + ["reuse_dtype:" + d for d in ("f8", "f4", "i8", "i4", "u1", "py")]
+    + ["reuse_steps:" + n for n, a in ADAPTERS.items() if a.reuse_kinds]
+    + ["reuse_drift_steps:" + n for n in ("CUSUM", "PageHinkley", "ADWIN", "DDM")]
+    # ensembles: the members of the streaming ensembles are deterministic; the batch ensembles' drifts depend on the
+    # bootstrap draws of their members and are reported only
+    + ["rejections:" + n for n in ENSEMBLES]
+    + ["later_compared:" + n for n in ENSEMBLES]
+    + ["rejected_right_after_drift:" + n for n, a in ENSEMBLES.items() if a.kind == "stream"]
+    + ["rejected_while_election_waiting:" + n for n, a in ENSEMBLES.items() if a.kind == "stream"]
+    + ["ensemble_member_pending_resets", "later_compared_while_election_waiting"]
 )
 
 
@@ -877,7 +1544,13 @@ def describe(tier):
         "container of the malformed call x container of its left and right neighbour (other valid calls use the "
         "default container: ndarray in quick; ndarray, DataFrame and (fast detectors) list in thorough); equiv-*: every assignment "
         "of the applicable containers to the positions of the listed valid histories; non-trivial = history with a "
-        "rejected malformed call resp. a non-ndarray container",
+        "rejected malformed call resp. a non-ndarray container; "
+        "inject-<S|B>Ens-*: the same injection scheme for StreamingEnsemble / BatchEnsemble objects (members, selectors "
+        "and elections listed under bounds.ensembles; base histories over the listed menus, prefix length <= 2 "
+        "(stream, 3 for SEns-one) / 0 (batch) in quick, one more in thorough); "
+        "reuse-*: per detector, parameter set, reusable container kind and dtype, every assignment of {fresh 2-D "
+        "ndarray, the caller's ONE reused object of that kind (overwritten in place before the call)} to the positions "
+        "of the listed histories (2^L paths)",
         "bounds": {
             "base_history_length": {n: len(a.bases(tier)[0]) for n, a in ADAPTERS.items()},
             "base_histories": {n: len(a.bases(tier)) for n, a in ADAPTERS.items()},
@@ -885,13 +1558,26 @@ def describe(tier):
             "injection_containers": {n: list(a.inj_containers) for n, a in ADAPTERS.items()},
             "equivalence_containers": {n: a.eq_containers(a.eq_hist[0][0]) for n, a in ADAPTERS.items() if a.eq_hist},
             "equivalence_histories": {n: a.eq_hist for n, a in ADAPTERS.items() if a.eq_hist},
+            "ensembles": {n: {"parameter_sets": _params(a, tier), "base_histories": len(a.bases(tier)),
+                              "base_history_length": len(a.bases(tier)[0]), "menu": list(a.menu),
+                              "rows": [list(r) for r in getattr(a, "rows", [])] or "BATCH_2D"}
+                          for n, a in ENSEMBLES.items()},
+            "reuse_histories": {n: reuse_hists(a, tier) for n, a in ADAPTERS.items() if a.reuse_kinds},
+            "reuse_variants": {n: ["%s/%s" % v for v in reuse_variants(a, tier)] for n, a in ADAPTERS.items() if a.reuse_kinds},
+            "reuse_parameter_sets": {n: [p for _, p in reuse_configs(a, tier)] for n, a in ADAPTERS.items() if a.reuse_kinds},
         },
         "explanation": "twin oracle between two real objects: D receives the malformed call, T never does; compared "
         "bit-for-bit after every later valid call: drift_state, both counters, retraining_recs, mean/variance (ADWIN), "
         "accuracies (STEPD), Page-Hinkley to_dataframe(), HDM current_distance/reference_n/distances/epsilon_values/"
         "thresholds, PCACD num_pcs, NNDVI reference_batch, MD3 margin density/waiting flag/oracle rows. A call is "
         "malformed relative to a 2-field specification state (width fixed by the first accepted input, names by the "
-        "first accepted DataFrame); a rejected call establishes nothing.",
+        "first accepted DataFrame); a rejected call establishes nothing. Ensembles: the same twin oracle on the "
+        "ensemble's drift_state, its two counters, drift_states, retraining_recs and every member's drift_state and "
+        "counters (the election object's internals are not read: what a refused call does to them must show in the "
+        "outputs of later accepted calls, which is why the histories keep a ConfirmedElection inside waiting periods). "
+        "reuse-*: the observation trace must equal, bit-for-bit, that of the run that passes the same values in fresh "
+        "2-D ndarrays of the same dtype (the dtype itself is not the subject: float32 arithmetic may legitimately "
+        "differ from float64).",
         "assumptions": [
             "a malformed call made while drift_state == 'drift' may perform the detector's pending post-drift "
             "re-initialisation before it is rejected (most update() methods reset first and validate second); the "
@@ -907,5 +1593,14 @@ def describe(tier):
             "set of a labelled sample); its protocol errors belong to C19",
             "X passed to detectors that ignore it (DDM, EDDM, STEPD, LFR, ADWINAccuracy) and y passed to detectors that "
             "ignore it are not validated by the library and are not injected",
+            "ensembles: malformed X is injected only if a member reads X, malformed labels only if a member reads "
+            "them; with column selectors every member sees its own column whatever the width of X, so inputs of "
+            "another WIDTH are injected only into ensembles without selectors (row-count and column-name faults into "
+            "all); a member that is in drift when the malformed call arrives may perform its own pending "
+            "re-initialisation before the call is refused (same rule as for single detectors); any other change of a "
+            "member by a refused call is a violation (signature ensemble-member-updated-by-rejected-call:*)",
+            "reuse-*: the caller overwrites its object only between calls (never during one) and only objects it "
+            "owns; list containers hold python numbers; labels are integers; whether a call changes the caller's object "
+            "is C15's subject (counted as reuse_caller_object_changed_by_call, not judged)",
         ],
     }
